@@ -8,8 +8,7 @@ Oracle (independent of the model): the rendered fragment is one STRING token eva
 (value sites) / one docstring statement / one physical comment line; and for (iii) every file parses, the AST
 skeleton equals the benign baseline's, the payload is found as an evaluated string constant where it carries meaning.
 
-A private copy of the generator source can be tested with VERIF_C15_SRC=<dir containing pyopenapi_gen/>
-(used for mutation testing; /repo is never written).
+Seeded changes are tested on a scratch checkout with VERIF_REPO_ROOT=<checkout> ./check C15 (/repo is never written).
 """
 from __future__ import annotations
 
@@ -24,10 +23,6 @@ import tokenize
 import warnings
 from pathlib import Path
 from typing import Any, Callable
-
-_ALT = os.environ.get("VERIF_C15_SRC")
-if _ALT:
-    sys.path.insert(0, _ALT)
 
 from framework import Check, cbool, clist, cpair, cstr, load_corpus  # noqa: E402
 
@@ -177,6 +172,15 @@ def r_disc_value(t: str) -> str:
                                                   IRDiscriminator(property_name="kind", mapping={t: "#/components/schemas/A"}))
 
 
+def through_block(code: str) -> str:
+    """endpoint_visitor passes every method's code through CodeWriter.write_block inside the class body"""
+    from pyopenapi_gen.core.writers.code_writer import CodeWriter
+    w = CodeWriter()
+    w.indent()
+    w.write_block(code)
+    return w.get_code()
+
+
 def _url_args(kind: str, required: bool) -> Callable[[str], str]:
     def r(t: str) -> str:
         from pyopenapi_gen.core.writers.code_writer import CodeWriter
@@ -185,7 +189,7 @@ def _url_args(kind: str, required: bool) -> Callable[[str], str]:
         g = EndpointUrlArgsGenerator()
         p = [{"name": "p", "original_name": t, "param_in": kind, "required": required}]
         (g._write_query_params if kind == "query" else g._write_header_params)(w, None, p, _ctx())
-        return w.get_code()
+        return through_block(w.get_code())
     return r
 
 
@@ -199,7 +203,7 @@ def r_media_overload(t: str) -> str:
         if isinstance(n, ast.JoinedStr):
             consts = "".join(v.value for v in n.values if isinstance(v, ast.Constant))
             if consts.startswith("content_type: Literal["):
-                return eval(compile(ast.Expression(n), "<site>", "eval"), {"content_type": t})
+                return through_block(eval(compile(ast.Expression(n), "<site>", "eval"), {"content_type": t}))
     raise RuntimeError("overload_generator: content_type Literal f-string not found")
 
 
@@ -447,7 +451,12 @@ def doc(T: dict[str, str] | None = None) -> dict:
                          "application/json": {"schema": {"$ref": "#/components/schemas/Item"}},
                          g("media"): {"schema": {"type": "string", "format": "binary"}}}},
                      "responses": {"200": {"description": "ok", "content": {
-                         "application/json": {"schema": {"$ref": "#/components/schemas/Item"}}}}}}}},
+                         "application/json": {"schema": {"$ref": "#/components/schemas/Item"}}}}}},
+            "put": {"operationId": "set_item", "tags": [g("tag")], "summary": "Set.",
+                    "parameters": [{"name": "id", "in": "path", "required": True, "schema": {"type": "string"}}],
+                    "requestBody": {"description": g("bodydesc"), "required": True, "content": {
+                        "application/json": {"schema": {"$ref": "#/components/schemas/Item"}}}},
+                    "responses": {"204": {"description": "ok"}}}}},
         "components": {"schemas": {
             "Item": {"type": "object", "description": g("schemadesc"), "required": ["name"], "properties": {
                 "name": {"type": "string", "description": g("propdesc")},
@@ -558,6 +567,15 @@ def baseline() -> dict:
     return _BASELINE
 
 
+NAME_POSITIONS = {"tag", "qname", "hname", "propname", "enumval", "discval"}
+# positions whose text is ALSO turned into an identifier / sort key by the generator: the payload is prefixed with "zq" so
+# that name derivation (property C20) yields a non-empty name sorting where the baseline's does; C15 is about the text sites
+
+
+def payload_for(pos: str, p: str) -> str:
+    return "zq" + p if pos in NAME_POSITIONS else p
+
+
 def run_pipeline(pos: str, payload: str) -> dict:
     base = baseline()
     o = observe_package(doc({pos: payload}))
@@ -657,15 +675,15 @@ def main(chk: Check, replay: dict | None = None) -> int:
     if chk.thorough:
         for pos in positions:
             for p in HOSTILE:
-                pipe_inputs.append((pos, p))
+                pipe_inputs.append((pos, payload_for(pos, p)))
             for _ in range(6):
-                pipe_inputs.append((pos, rand_text(rng, 1, 10)))
+                pipe_inputs.append((pos, payload_for(pos, rand_text(rng, 1, 10))))
     else:
         for i, pos in enumerate(positions):
             for j in range(5):
-                pipe_inputs.append((pos, key_payloads[(i * 5 + j) % len(key_payloads)]))
-            pipe_inputs.append((pos, rng.choice(HOSTILE)))
-            pipe_inputs.append((pos, rand_text(rng, 1, 8)))
+                pipe_inputs.append((pos, payload_for(pos, key_payloads[(i * 5 + j) % len(key_payloads)])))
+            pipe_inputs.append((pos, payload_for(pos, rng.choice(HOSTILE))))
+            pipe_inputs.append((pos, payload_for(pos, rand_text(rng, 1, 8))))
     pipe_inputs = list(dict.fromkeys(p for p in pipe_inputs if p[1] != ""))
     pipe_cases = [run_pipeline(pos, p) for pos, p in pipe_inputs]
     codes = None
